@@ -127,7 +127,7 @@ theorem record_sim (t : Nat) (F : Holder → Prop) (a b : State) (hs : Sim t F a
     | none => exact ⟨rfl, hs⟩
     | some x =>
       simp only [bind, Option.bind, ← hs.ten, ← isAdmin_congr _ _ t sender hs.ten, ← getRecipients_congr a b hs.sp hs.owners, ← hs.h]
-      by_cases hb : recordBasic (some x) d c tok = true
+      by_cases hb : (recordBasic (some x) d c tok && validUtf8 req) = true
       · simp only [hb, check, if_true]
         by_cases hadm : isAdmin a.st.tenants t sender = true
         · simp only [hadm, if_true]
